@@ -260,6 +260,9 @@ func (r *runner) run(root string) int {
 	// violations -> replay files
 	sort.SliceStable(viols, func(i, j int) bool {
 		if viols[i].Phase != viols[j].Phase {
+			if (viols[i].Phase == "witness") != (viols[j].Phase == "witness") {
+				return viols[i].Phase == "witness"
+			}
 			return viols[i].Phase < viols[j].Phase
 		}
 		return viols[i].Idx < viols[j].Idx
